@@ -213,6 +213,16 @@ def make_sheet(rnd, premium=False, default_bg=(255, 255, 255), rich=False, n_rul
         items.append((depth, sel, parts))
         feats[sel] = f
         i += 1
+        if src == "literal" and i < n and rnd.random() < 0.12 and allowed("same-pair"):
+            # the same colour pair again, in other notations (an answer remembered per colour pair, not per declaration,
+            # would carry the first rule's notation here)
+            sel2 = _selector(rnd, i, tag)
+            parts2 = [f"color: {_spell(rnd, t)}"]
+            if own_bg:
+                parts2.append(f"background-color: {_spell(rnd, bg, ['hex6', 'hex3', 'rgb', 'hsl', 'keyword', 'HEX6'])}")
+            items.append((0, sel2, parts2))
+            feats[sel2] = {"src:literal", "same-pair-other-notation", "cls:" + cls} | ({"own-bg"} if own_bg else set())
+            i += 1
         if src == "var-shared" and i < n:
             # the sharing rule
             sel2 = _selector(rnd, i, tag)
